@@ -156,11 +156,13 @@ def main(argv=None):
                 for wd in [".", "w/", "..", "w/../v", abs_workdirs[0]]:
                     inp = rng.sample(file_paths, 3)
                     outp = rng.sample(file_paths, 2)
+                    volp = [p for p in rng.sample(file_paths, 3) if p not in outp][:2]
                     del cap.calls[:]
-                    err = with_env(root, here, lambda: call_str(lambda: api.step("prog", inp=inp, out=outp, workdir=wd)))
+                    err = with_env(root, here, lambda: call_str(lambda: api.step("prog", inp=inp, out=outp, vol=volp, workdir=wd)))
                     sent = [c for c in cap.calls if c[0] == "define_step"]
-                    api_checks.append({"fn": "step", "here": here, "workdir": wd, "inp": inp, "out": outp, "err": err,
-                                       "sent": [list(map(str, sent[0][1][2])), list(map(str, sent[0][1][4])), str(sent[0][1][6])] if sent else None})
+                    api_checks.append({"fn": "step", "here": here, "workdir": wd, "inp": inp, "out": outp, "vol": volp, "err": err,
+                                       "sent": [list(map(str, sent[0][1][2])), list(map(str, sent[0][1][4])), str(sent[0][1][6])] if sent else None,
+                                       "sent_vol": list(map(str, sent[0][1][5])) if sent else None})
                 os.environ["STEPUP_JOB_I"] = "1"
                 for p_ in rng.sample(file_paths, 4):
                     del cap.calls[:]
@@ -170,6 +172,16 @@ def main(argv=None):
                     sent = [c for c in cap.calls if c[0] == "amend_step"]
                     api_checks.append({"fn": "amend", "here": here, "workdir": ".", "inp": [p_], "out": [], "err": err,
                                        "sent": [sorted(map(str, sent[0][1][1])), [], "."] if sent else None})
+                    # amended outputs and volatile outputs
+                    del cap.calls[:]
+                    for hist in api._AMEND_HISTORY.values():
+                        hist.clear()
+                    q_ = rng.choice([x for x in file_paths if x != p_])
+                    err = with_env(root, here, lambda p_=p_, q_=q_: call_str(lambda: api.amend(out=[p_], vol=[q_])))
+                    sent = [c for c in cap.calls if c[0] == "amend_step"]
+                    api_checks.append({"fn": "amend", "here": here, "workdir": ".", "inp": [], "out": [p_], "vol": [q_], "err": err,
+                                       "sent": [[], sorted(map(str, sent[0][1][3])), "."] if sent else None,
+                                       "sent_vol": sorted(map(str, sent[0][1][4])) if sent else None})
                 for p_ in ["sub/deep/i.txt", "d/f.txt", "f.txt", "../sib/k.txt"]:
                     for field in ("inp", "out", "vol"):
                         cap.step_info = StepInfo("prog", [p_] if field == "inp" else [], [], [p_] if field == "out" else [],
@@ -207,7 +219,7 @@ def main(argv=None):
                                     "got_keep": with_env(root, chk["here"], lambda p=p: call_str(lambda: api._keep_affixes(p, translate)))})
                 continue
             sent_inp, sent_out, sent_wd = chk["sent"]
-            pairs = list(zip(chk["inp"], sent_inp)) + list(zip(chk["out"], sent_out))
+            pairs = list(zip(chk["inp"], sent_inp)) + list(zip(chk["out"], sent_out)) + list(zip(chk.get("vol", []), chk.get("sent_vol") or []))
             for p, got in pairs:
                 vectors.append({"kind": "xlate", "root": root, "here": chk["here"], "workdir": chk["workdir"], "path": p, "mode": "api." + chk["fn"],
                                 "got_t": got,
